@@ -127,6 +127,15 @@ def judge_names(fam, s):
         pass        # arithmetic / shape errors: no metadata to compare
     except Exception as e:
         pass        # raw failures on odd array arithmetic are C02's business
+    # consumer: the variables a grader collects from a list of expressions (numbered / sibling variable discovery)
+    try:
+        used = set(FormulaGrader.get_used_vars([s, '']))
+    except Exception as e:
+        return Result('consumer-raised', nontriv, viol('names:get_used_vars-raises', 'get_used_vars([%r]) raised %r' % (s, e)), 3)
+    if used != rv:
+        return Result('wrong-sets', nontriv,
+                      viol('names:get_used_vars-differs', 'get_used_vars([%r]) = %r, expected %r' % (s, sorted(used), sorted(rv)),
+                           sorted(rv), sorted(used)), 3)
     # the object returned for an accepted string must keep its sets when the parser is used again
     X.parse('q_1+g(2z)')
     if sets_of(p) != exp:
@@ -194,6 +203,9 @@ def observe_call(op, s):
         if op == 'eval':
             v, m = X.evaluator(s, FULL_V, FULL_F, FULL_S)
             return ('val', repr(v), sorted(m.variables_used), sorted(m.functions_used), sorted(m.suffixes_used))
+        if op == 'evalnosuffix':
+            v, m = X.evaluator(s, FULL_V, FULL_F, {})        # same names in scope, but no suffixes defined
+            return ('val', repr(v), sorted(m.variables_used), sorted(m.functions_used), sorted(m.suffixes_used))
         if op == 'evalmiss':
             v, m = X.evaluator(s, MISS_V, {}, {})
             return ('val', repr(v), sorted(m.variables_used), sorted(m.functions_used), sorted(m.suffixes_used))
@@ -231,9 +243,9 @@ class ParserHistory(BFSFamily):
 
     def events(self, tier):
         if tier == 'quick':
-            ops, strs = ['parse', 'eval', 'evalmiss'], STRINGS_Q
+            ops, strs = ['parse', 'eval', 'evalmiss', 'evalnosuffix'], STRINGS_Q
         else:
-            ops, strs = ['parse', 'eval', 'evalmiss', 'grade', 'dep'], STRINGS_T
+            ops, strs = ['parse', 'eval', 'evalmiss', 'evalnosuffix', 'grade', 'dep'], STRINGS_T
         return [(op, s) for s in strs for op in ops]
 
     def build(self, hist):
@@ -245,10 +257,13 @@ class ParserHistory(BFSFamily):
 
     def state_key(self, ctx):
         p = ctx.parser
-        cache = tuple(sorted((k, tuple(tuple(sorted(x)) for x in sets_of(v)) if is_expression(v)
+        # every attribute of a cached expression except its parse tree is part of the state (anything a later
+        # edit memoises on the shared object then distinguishes states instead of being merged away)
+        from ..canon import canon as _canon
+        cache = tuple(sorted((k, _canon({a: b for a, b in vars(v).items() if a != 'tree'}) if is_expression(v)
                               else ('not-an-expression', type(v).__name__, str(v))) for k, v in p.cache.items()))
-        return (cache, tuple(sorted(p.variables_used)), tuple(sorted(p.functions_used)),
-                tuple(sorted(p.suffixes_used)), p.max_array_dim_used)
+        other = _canon({a: b for a, b in vars(p).items() if a not in ('cache', 'grammar')})
+        return (cache, other)
 
     def fresh_obs(self, ev):
         if ev not in self.fresh:
